@@ -5924,6 +5924,10 @@ class Path(Shape, MutableSequence):
             if isinstance(segment, Move):
                 self._segments[index].end = Point(segment.end)
                 return
+            if i != index and isinstance(segment, Close) and segment.end is not None:
+                # The previous close already ends at the start of the subpath.
+                self._segments[index].end = Point(segment.end)
+                return
         self._segments[index].end = (
             Point(self._segments[0].end) if self._segments[0].end is not None else None
         )
@@ -6151,6 +6155,11 @@ class Path(Shape, MutableSequence):
         end_pos = None
         for segment in reversed(self._segments):
             if isinstance(segment, Move):
+                end_pos = segment.end
+                break
+            if isinstance(segment, Close) and segment.end is not None:
+                # A close ends at the start of its subpath, which stays the z point until the next move.
+                # (Stopping here keeps a run of closes linear instead of quadratic.)
                 end_pos = segment.end
                 break
         if end_pos is None:
